@@ -22,7 +22,7 @@ import os
 import vlib
 from vlib import enc_str, dec_str, enc_list, dec_list
 
-THEOREMS = ["C12_refines", "C12_refines_run", "C12_nopanic", "C12_mismatch", "C12_mismatch_native",
+THEOREMS = ["C12_tables", "C12_short_args", "C12_parse_dec", "C12_verbatim_array_dec", "C12_F6_confined", "C12_refines", "C12_refines_run", "C12_nopanic", "C12_mismatch", "C12_mismatch_native",
             "C12_mismatch_release", "C12_mismatch_concat", "C12_release_total", "C12_release",
             "C12_release_cyclic", "C12_distinct", "C12_frame", "C12_verbatim_array", "C12_verbatim_map",
             "C12_verbatim_set", "C12_keys_perm", "C12_members_perm", "C12_oracles_exist", "C12_F6_witness"]
@@ -41,7 +41,8 @@ VALUES = ["", "a", "b", "c", "x y", "handle:", "handle:AAAAAAAAAAAAAAAAAAAA", "h
           "false", "0", "1", "12", "-5", "é", "日本語", "a,b", "${x}", "%{x}", "${__a1}", "#c", "# c", "\"q\"", "\"", "\\",
           "a\\b", "tab\there", "nl\nline", "cr\rx", " lead", "trail ", "  ", "-r", "--recursive", "--", "😀", "é",
           "null", "none", "undefined:0", "=", "x=y", ":l", "!inc", "a b c", "'", "`", "(", ")", "not", " ", " ",
-          "handle:N0000000000000000000", "scope::array_concat::arguments"]
+          "handle:N0000000000000000000", "scope::array_concat::arguments", "\x00", "a\x00b", "\ufeff", "\U0010ffff",
+          "\u202e", "e\u0301", "\u1e9e", "İ", "ß", "true ", "FALSE", "0.0", "١٢", "handle:RAW00000000000000009"]
 SAFE_VALUES = ["a", "b", "c", "x y", "handle:", "handle:AAAAAAAAAAAAAAAAAAAA", "true", "false", "0", "12", "é", "日本語",
                "a,b", "", "nope", "-r", "=", ":l", "!inc", "'", "(", "not", "😀"]
 INDEXES = ["0", "1", "2", "3", "4", "5", "6", "7", "10", "-1", "+1", "+0", "01", "007", "abc", "", "1.0", " 1", "1 ", "-0",
@@ -51,6 +52,28 @@ RANGE_ARGS = ["0", "1", "2", "3", "5", "-2", "-1", "+3", "10", "abc", "", "1.5",
               "9223372036854775808", "-9223372036854775808", "-9223372036854775809", " 1", "03"]
 SAFE_SEPS = [",", "", ", ", "ab", "é", "--", "::", " ", "\"", "\\", "a b", "日", "'"]
 K7_SEPS = ["#", "\t", "${x}", "%{x}", "\n", "#x", "\r", "$", "%", "a#", " "]
+
+
+def source_aliases():
+    """{canonical name: [aliases]} read from the source by the same extractor that writes GenCollections.v"""
+    import sys
+    sys.path.insert(0, os.path.join(vlib.ROOT, "lib"))
+    sys.path.insert(0, os.path.join(vlib.ROOT, "lib", "gen"))
+    try:
+        import gen_from_source
+        import c12_gen
+        return {al[0]: al for (_, al, _, _, _) in c12_gen.extract(gen_from_source)}
+    except Exception:           # the obligation C12_tables is broken in that case; run without aliases
+        return {}
+
+
+ALIASES = {}       # canonical name -> all names, filled by run()
+ALIAS_OF = {}      # any name -> canonical name
+
+
+def cname(op):
+    n = op.split(" ")[0]
+    return ALIAS_OF.get(n, n)
 
 
 def lit(s):
@@ -121,6 +144,9 @@ class Gen:
 
     def add(self, op):
         name = op.split(" ")[0]
+        others = ALIASES.get(name, [name])
+        if len(others) > 1 and self.rng.random() < 0.35:
+            op = " ".join([self.rng.choice(others)] + op.split(" ")[1:])     # call it by one of its aliases
         if name in ALLOC:
             self.allocs.append((len(self.ops), KIND_OF[name]))
         if name == "release":
@@ -247,7 +273,7 @@ def canon_side(ops, fields):
     names = []     # (step, name), latest first
     res, raw = [], []
     for k, (op, f) in enumerate(zip(ops, fields)):
-        name = op.split(" ")[0]
+        name = cname(op)
         f = f.rstrip("~")
         if f.startswith("V"):
             v = dec_str(f[1:])
@@ -295,7 +321,7 @@ def compare_history(ops, mfields, ifields):
     cm, rawm = canon_side(ops, mfields)
     ci, rawi = canon_side(ops, ifields)
     for k, op in enumerate(ops):
-        name = op.split(" ")[0]
+        name = cname(op)
         if mfields[k].endswith("~"):
             if name != "array_concat":
                 return "diff", k, "model and specification differ on a command other than array_concat", notes
@@ -385,8 +411,38 @@ def own_hygiene(ck):
         ck.discharged.append("hygiene")
 
 
+def load_aliases():
+    ALIASES.update(source_aliases())
+    for cn, al in ALIASES.items():
+        for a in al:
+            ALIAS_OF[a] = cn
+
+
+def replay(ck, data):
+    """vcheck C12 --replay file: re-run the recorded history on both sides; status 1 if they still disagree"""
+    wire = data.get("wire")
+    if wire is None:
+        print("replay: this file names a broken obligation, not an input; re-run the check itself")
+        return 1
+    load_aliases()
+    ck.ocaml_build()
+    ck.harness_build(["c12"])
+    ops = wire.split("\t")[1:]
+    m = ck.model([wire])[0].split("\t")
+    i = ck.impl([wire])[0].split("\t")
+    cm, _ = canon_side(ops, m) if len(m) == len(ops) else ([], [])
+    ci, _ = canon_side(ops, i) if len(i) == len(ops) else ([], [])
+    for k, o in enumerate(ops):
+        print("%3d %-50s model %-30s implementation %s" % (k, show_op(o)[:50], (cm[k:k + 1] or ["?"])[0], (ci[k:k + 1] or ["?"])[0]))
+    status, step, detail, notes = compare_history(ops, m, i)
+    print("REPLAY: " + ("agree now" if status != "diff" else "still disagree at step %d: %s" % (step, detail))
+          + (" (known findings seen: %s)" % ", ".join(sorted(notes)) if notes else ""))
+    return 1 if status == "diff" else 0
+
+
 def run(ck):
     ck.gen_from_source()
+    load_aliases()
     ck.coq_build(["props/C12.vo", "extract/C12_extract.vo"])
     ck.print_assumptions(["DSP.C12"], ["DSP.C12." + t for t in THEOREMS])
     own_hygiene(ck)
@@ -407,6 +463,13 @@ def run(ck):
          "release =45.114 @3", "dump"],                                                                               # cyclic release
         ["set_new =97 =98", "set_put @0 =99 =97", "set_size @0", "set_remove @0 =97", "set_size @0", "dump"],
     ]
+    cdir = os.path.join(vlib.ROOT, "corpus", "C12")
+    if os.path.isdir(cdir):
+        for fn in sorted(os.listdir(cdir)):
+            if fn.endswith(".wire"):
+                for l in open(os.path.join(cdir, fn), encoding="utf8").read().splitlines():
+                    if l.startswith("H\t"):
+                        corpus.append(l.split("\t")[1:])
     for c in corpus:
         hist.append(("corpus", c))
     n_corpus = len(hist)
@@ -430,6 +493,18 @@ def run(ck):
                 script_weight=rng.choice([0.3, 1.0, 1.0, 2.5]))
         hist.append(("random", g.history(L)))
 
+    # dense: short histories with every collection re-read after every single op
+    n_dense = 4000 if thorough else 500
+    for i in range(n_dense):
+        g = Gen(rng, script_weight=rng.choice([0.5, 1.0, 2.0]))
+        g.history(rng.randint(1, 14))
+        dense = []
+        for o in g.ops[:-1]:
+            dense.append(o)
+            if o != "dump":
+                dense.append("dump")
+        hist.append(("dense", dense))
+
     lines = ["H\t" + "\t".join(ops) for (_, ops) in hist]
     found = False
     stats = {"ok": 0, "truncated": 0, "F6": 0, "F7": 0, "F7-exposed": 0}
@@ -448,6 +523,9 @@ def run(ck):
                 upto = len(ops) if status == "ok" else step + 1
                 for op, f in zip(ops[:upto], mf[:upto]):
                     nm = op.split(" ")[0]
+                    if nm != cname(op):
+                        opcount["(by alias)"] = opcount.get("(by alias)", 0) + 1
+                    nm = cname(op)
                     opcount[nm] = opcount.get(nm, 0) + 1
                     kk = f[:2] if f[:1] == "E" else f[:1]
                     outkinds[kk] = outkinds.get(kk, 0) + 1
@@ -505,12 +583,12 @@ def run(ck):
                                 "scope": "7-op setup with one array, map, set, non-collection value, released handle and an unknown "
                                          "name; every one of %d command forms on every one of 6 targets, followed by every command "
                                          "form on %s" % (len(confusion_ops("@0")), "every target" if thorough else "the same target and on the array")},
-            "families": {"corpus": n_corpus, "confusion": n_exh, "random": n_rand},
+            "families": {"corpus": n_corpus, "confusion": n_exh, "random": n_rand, "dense (dump after every op)": n_dense},
             "history_length_distribution": dict(sorted(lens.items())),
             "ops_compared": sum(opcount.values()), "ops_by_command": dict(sorted(opcount.items())),
             "model_output_kinds": dict(sorted(outkinds.items())),
             "status": stats,
-            "samples": [[show_op(o) for o in hist[0][1]], [show_op(o) for o in hist[n_corpus + 5][1]],
+            "samples": [[show_op(o) for o in hist[0][1]], [show_op(o) for o in hist[min(n_corpus + 5, len(hist) - 1)][1]],
                         [show_op(o) for o in hist[-1][1][:12]]],
             "partial": "script-implemented commands (array_is_empty, array_contains, array_concat, array_join, map_contains_key, "
                        "map_contains_value, map_is_empty, set_from_array, set_is_empty) have specification-level definitions only "
